@@ -116,6 +116,8 @@ pub enum WKind {
     Zeros,
     Negatives,
     Wide,
+    /// all entries identical and different from one (a known homoscedastic noise level)
+    Constant,
 }
 impl WKind {
     pub fn name(self) -> &'static str {
@@ -126,16 +128,18 @@ impl WKind {
             WKind::Zeros => "zeros",
             WKind::Negatives => "negatives",
             WKind::Wide => "wide",
+            WKind::Constant => "constant",
         }
     }
 }
-pub const WKINDS: [WKind; 6] = [
+pub const WKINDS: [WKind; 7] = [
     WKind::None,
     WKind::Ones,
     WKind::Positive,
     WKind::Zeros,
     WKind::Negatives,
     WKind::Wide,
+    WKind::Constant,
 ];
 
 pub fn random_weights(rng: &mut Rng, kind: WKind, n: usize, m: usize) -> Option<Vec<f64>> {
@@ -143,6 +147,7 @@ pub fn random_weights(rng: &mut Rng, kind: WKind, n: usize, m: usize) -> Option<
     match kind {
         WKind::None => None,
         WKind::Ones => Some(vec![1.0; n]),
+        WKind::Constant => Some(vec![*rng.pick(&[0.5, 2.0, 20.0, -3.0, 0.125, 1e3]); n]),
         WKind::Positive => Some((0..n).map(|_| r(rng.uniform(0.5, 2.0))).collect()),
         WKind::Zeros => {
             let mut w: Vec<f64> = (0..n).map(|_| r(rng.uniform(0.5, 2.0))).collect();
